@@ -122,6 +122,22 @@ Proof.
       cbn [firstn]. rewrite <- app_assoc. reflexivity.
 Qed.
 
+Lemma consume_from_sliceto : forall k rest seen, (length seen <= k)%nat ->
+  consume_from (OSliceTo k) seen rest = seen ++ firstn (k - length seen) rest.
+Proof.
+  intros k. induction rest as [|x r IH]; intros seen H.
+  - rewrite consume_from_nil, firstn_nil, app_nil_r. reflexivity.
+  - destruct (Nat.eq_dec (length seen) k) as [E|E].
+    + rewrite consume_from_stop.
+      * rewrite E, Nat.sub_diag. cbn [firstn]. rewrite app_nil_r. reflexivity.
+      * cbn [wants]. apply Nat.ltb_ge. lia.
+    + rewrite consume_from_step by (cbn [wants]; apply Nat.ltb_lt; lia).
+      rewrite IH by (rewrite app_length; cbn [length]; lia).
+      rewrite app_length. cbn [length].
+      replace (k - length seen)%nat with (S (k - (length seen + 1)))%nat by lia.
+      cbn [firstn]. rewrite <- app_assoc. reflexivity.
+Qed.
+
 Lemma consume_from_get : forall k rest seen, (length seen <= S k)%nat ->
   consume_from (OGet k) seen rest = seen ++ firstn (S k - length seen) rest.
 Proof.
@@ -155,6 +171,9 @@ Proof.
       rewrite Nat.eqb_refl. rewrite (last_opt_firstn_S _ _ _ E). reflexivity.
     + apply nth_error_None in E. rewrite firstn_all2 by lia.
       destruct (length l =? S k)%nat eqn:E2; [apply Nat.eqb_eq in E2; lia | reflexivity].
+  - rewrite consume_from_sliceto by (cbn [length]; lia). cbn [length app result spec_result].
+    rewrite Nat.sub_0_r. reflexivity.
+  - rewrite consume_from_all by reflexivity. reflexivity.
 Qed.
 
 (* ------------------------------------------------------------------------------------------ *)
@@ -903,6 +922,9 @@ Proof. intros x. unfold finish, tm. destruct (t_op x); cbn [t_pc set_pc]; lia. Q
 Ltac tmsolve := unfold tm; cbn [t_pc t_i set_pc rank]; unfold K, batch; lia.
 Ltac tmfin := eapply Nat.le_lt_trans; [apply tm_finish | tmsolve].
 
+Lemma pc_eq_retlen : forall p, p = PRetLen \/ p <> PRetLen.
+Proof. destruct p; (left; reflexivity) || (right; discriminate). Qed.
+
 Lemma tm_live : forall th, t_pc th <> PDone -> t_pc th <> PRetLen ->
   tm th = ((N + 1 - t_i th) * K + rank (t_pc th) + 2)%nat.
 Proof. intros th H1 H2. unfold tm. destruct (t_pc th) eqn:E; congruence. Qed.
@@ -966,6 +988,27 @@ Proof.
   - stepinv Hstep. destruct HT as (_ & _ & _ & _ & Hi). projs. fold N in Hi. tmsolve.
   - stepinv Hstep. tmsolve.
   - discriminate.
+Qed.
+
+(* per item: while the cursor i stays the same, every own step strictly decreases rank (<= 70); i moves
+   only in `i += 1` right after a yield -- so an iterator delivers its next value (or finishes) within 71
+   of its own steps, for any |seq| and whatever the other threads do in between *)
+Lemma rank_le_70 : forall p, (rank p <= 70)%nat.
+Proof. destruct p; cbn [rank]; unfold batch; lia. Qed.
+
+Theorem steps_per_item_bounded : forall s t th s' th',
+  shared_inv seq s -> thread_inv seq s th ->
+  step_thread seq true false s t th = Some (s', th') ->
+  t_i th' = t_i th -> t_pc th' <> PDone -> t_pc th' <> PRetLen ->
+  (rank (t_pc th') < rank (t_pc th) <= 70)%nat.
+Proof.
+  intros s t th s' th' HS HT Hstep Hi H1 H2.
+  pose proof (step_thread_measure s t th s' th' HS HT Hstep) as Hm.
+  split; [|apply rank_le_70].
+  assert (Hp : t_pc th <> PDone) by (intro E; unfold step_thread in Hstep; rewrite E in Hstep; discriminate).
+  destruct (pc_eq_retlen (t_pc th)) as [E|E].
+  - exfalso. unfold step_thread in Hstep. rewrite E in Hstep. injection Hstep as _ <-. apply H1. reflexivity.
+  - rewrite (tm_live th' H1 H2), (tm_live th Hp E), Hi in Hm. lia.
 Qed.
 
 Definition total (st : state) : nat := fold_right (fun th a => (tm th + a)%nat) O (thr st).
